@@ -1,0 +1,53 @@
+//go:build verif
+
+package sftp
+
+import (
+	"errors"
+	"io"
+
+	sshfx "github.com/pkg/sftp/internal/encoding/ssh/filexfer"
+)
+
+// Re-exports for the framing checks (C08) of the verification harness in /verif:
+// the packet readers of internal/encoding/ssh/filexfer with a caller-chosen receive
+// buffer and limit. Compiled only with `-tags verif`; adds no behaviour to the
+// package and edits no existing code.
+
+// VerifFxDefaultMaxPacketLength is filexfer.DefaultMaxPacketLength.
+const VerifFxDefaultMaxPacketLength = sshfx.DefaultMaxPacketLength
+
+// VerifFxReadFrom calls RequestPacket.ReadFrom (request) or RawPacket.ReadFrom (!request)
+// with the receive buffer b and the limit maxPacketLength. bodyLen is the number of
+// bytes delivered after type and request id (RawPacket only; -1 for RequestPacket).
+func VerifFxReadFrom(request bool, r io.Reader, b []byte, maxPacketLength uint32) (typ uint8, id uint32, bodyLen int, err error) {
+	if request {
+		var p sshfx.RequestPacket
+		if err = p.ReadFrom(r, b, maxPacketLength); err != nil {
+			return 0, 0, -1, err
+		}
+		return uint8(p.Type()), p.RequestID, -1, nil
+	}
+	var p sshfx.RawPacket
+	if err = p.ReadFrom(r, b, maxPacketLength); err != nil {
+		return 0, 0, -1, err
+	}
+	return uint8(p.PacketType), p.RequestID, p.Data.Len(), nil
+}
+
+// VerifFxErrClass names the framing error: "" (nil), long, short, eof, unexpected-eof, other.
+func VerifFxErrClass(err error) string {
+	switch {
+	case err == nil:
+		return ""
+	case errors.Is(err, sshfx.ErrLongPacket):
+		return "long"
+	case errors.Is(err, sshfx.ErrShortPacket):
+		return "short"
+	case err == io.EOF:
+		return "eof"
+	case err == io.ErrUnexpectedEOF:
+		return "unexpected-eof"
+	}
+	return "other"
+}
